@@ -116,12 +116,20 @@ fn cyclic_world(rng: &mut Rng) -> HashMap<String, Dict> {
         }
         w.insert(id.to_string(), d);
     }
+    // sometimes a ref on the chain resolves to an EMPTY record
+    if rng.chance(1, 3) {
+        w.insert(ids[rng.below(5)].to_string(), Dict::new());
+    }
     w
 }
 
 fn eval_monitored(ctx: &mut Ctx, f: &Filter, text: &str, rng: &mut Rng) {
     let world = cyclic_world(rng);
-    let subject = world[*rng.pick(&["r", "s", "t", "u", "v"])].clone();
+    let mut subject = world[*rng.pick(&["r", "s", "t", "u", "v"])].clone();
+    if subject.is_empty() {
+        subject.insert("a".into(), Value::make_ref("r"));
+        subject.insert("siteRef".into(), Value::make_ref("s"));
+    }
     let res = CappedResolver { inner: ChainResolver { recs: world, calls: Cell::new(0) }, cap: RESOLVE_CAP };
     let ns = real_namespace();
     let r = catch(|| {
@@ -149,7 +157,14 @@ pub fn run(ctx: &mut Ctx) {
     let pool = value_pool();
     let _ = gen_record(&mut Rng::new(1), &pool);
     // --- parenthesis ladders --------------------------------------------------------------------
-    let ladders: [(&str, &str, &str, &str); 3] = [("ladder-paren", "(", "a", ")"), ("ladder-paren-and", "(a and ", "b", ")"), ("ladder-not-paren", "(not a or ", "b==1", ")")];
+    let ladders: [(&str, &str, &str, &str); 5] = [
+        ("ladder-paren", "(", "a", ")"),
+        ("ladder-paren-and", "(a and ", "b", ")"),
+        ("ladder-not-paren", "(not a or ", "b==1", ")"),
+        // nesting interleaved with already closed sibling groups
+        ("ladder-paren-sibling", "((a) and ", "b", ")"),
+        ("ladder-paren-sibling2", "((a or (b)) and (c) and ", "d", " or (e))"),
+    ];
     for (stream, open, core, close) in ladders {
         if ctx.shard != 0 {
             break;
@@ -233,7 +248,11 @@ pub fn run(ctx: &mut Ctx) {
         let rel = *rng.pick::<&str>(&["containedBy", "contains", "inputs", "outputs", "siteRef", "relationship", "tags", "is"]);
         let term = if rng.coin() { format!(" ^{}", rng.pick::<&str>(&["site", "equip", "space", "air", "marker"])) } else { String::new() };
         let target = if rng.chance(2, 3) { format!(" @{}", rng.pick::<&str>(&["r", "s", "t", "u", "v", "zz"])) } else { String::new() };
-        let text = format!("{rel}?{term}{target}");
+        let text = if rng.chance(1, 3) {
+            format!("{} *== @{}", rng.pick::<&str>(&["a", "b", "c", "siteRef", "equipRef", "x1"]), rng.pick::<&str>(&["r", "s", "t", "u", "v", "zz"]))
+        } else {
+            format!("{rel}?{term}{target}")
+        };
         ctx.eval("relation", crate::prng::mix(&[crate::prng::hash_str(&text), i]), true);
         if let Some(p) = parse_monitored(ctx, text.as_bytes(), "relation") {
             eval_monitored(ctx, &p, &text, &mut rng);
